@@ -31,7 +31,7 @@ func init() {
 		id := id
 		register(id, []string{"./..."}, func(p *Prog, r *Report) {
 			t := flowTexts[id]
-			r.Engines = []string{"flow(FLOW-SOME,FLOW-REF,FLOW-PARAM,FLOW-FN,OPT-RELAX,COPY-NOOP)", "hashrules(HASH-KILL)"}
+			r.Engines = []string{"flow(FLOW-SOME,FLOW-REF,FLOW-PARAM,FLOW-FN,OPT-RELAX,COPY-NOOP,FLOW-MUST)", "hashrules(HASH-KILL)"}
 			r.Explanation = "Static value-flow analysis (compositional per-function summaries over SSA, field-based heap for gadget state) of " + t[0] + ". Decided: " + t[1] + ". FLOW-SOME is intrinsic (a free wire must reach some sink, itself or at every same-package call site it is handed to); FLOW-REF / FLOW-PARAM compare with the reviewed table rules/flow.json and demand a superset (sink kind, raw/derived strength, number of call-site-sensitive sink sites). HASH-KILL (typestate): data written to a hasher of these packages reaches a Sum of the same hasher without an intervening Reset. NOT decided: " + t[2] + "."
 			r.RuleText = "one obligation per hint-output / internal-wire source (and per same-package call site receiving an escaping one); nontrivial = at least one sink reached"
 			r.Assumptions = []string{"may-analysis: over-approximated flows can only hide a missing constraint, never raise a false alarm", "call graph: static callees + CHA on gnark-declared interfaces; frontend.API methods are primitives (sinks or arithmetic)", "hint inputs do not flow to hint outputs (outputs are unconstrained until asserted)"}
@@ -42,6 +42,7 @@ func init() {
 			RunHashKill(p, r, pkgScope(flowAreas[id]...))
 			RunRelax(p, r, id, pkgScope(flowAreas[id]...))
 			RunCopyNoop(p, r, pkgScope(flowAreas[id]...))
+			RunFlowMust(p, r, id, pkgScope(flowAreas[id]...))
 			if id == "C19" {
 				r.Engines = append(r.Engines, "permagree(PERM-AGREE)")
 				r.Explanation += " PERM-AGREE (intrinsic): rows of the GKR assignment that are permuted in place with utils.Permute(row, p.F) are read back through the same permutation field F (not its inverse, found from `p.B = InvertPermutation(p.A)`), so exported values belong to the instance they are returned for."
